@@ -184,6 +184,15 @@ def classify(ck: Check, hists, which: str):
                     f'after {h["calls"][j]} the circuit violates its '
                     f'documented invariant ({iv["inv"]})', replay)
                 break
+            if which == 'C05' and iv.get('probes', 'ok') != 'ok':
+                ck.violation(
+                    f'views-inconsistent:{kind}:' + iv['probes'],
+                    f'after {h["calls"][j]} the read accessors '
+                    + iv['probes'] + ' do not describe the grid (direct '
+                    'oracle computed from the cells)', replay)
+                break
+            if which == 'C05' and 'probes' in iv:
+                ck.bump('accessor_probe_rounds')
             if which == 'C04' and bad04:
                 tl_i = circ_sim.timelines_from_text(ict)
                 tl_m = circ_sim.timelines_from_text(mct)
